@@ -7,6 +7,8 @@ CONSTANTS
   AllowCancel = FALSE
   HasNotify = FALSE
   ShutFirst = TRUE
+  Forwarders = {}
+  ForwardRewinds = FALSE
 INVARIANTS Correlated DistinctIds NotifyOnlyToSubscriber ChanAtMostOne NoResidue WaiterHasFuture
 PROPERTIES AllFinish
 CHECK_DEADLOCK FALSE
